@@ -1,14 +1,14 @@
 SPECIFICATION MCSpec
 CONSTANTS
-  MaxRecs = 9
+  MaxRecs = 11
   MaxBatch = 2
-  MaxOps = 16
+  MaxOps = 20
   MaxEpoch = 2
   CapSet = {1, 2, 3}
   KeySet = {"nil", "empty", "a", "b"}
   AgeSet = {0}
-  MsgsSet = {0, 4}
-  BytesSet = {0}
+  MsgsSet = {0, 3, 5}
+  BytesSet = {0, 4}
   CompactSet = {TRUE}
   LagSet = {0}
   BigSet = {FALSE, TRUE}
